@@ -124,17 +124,9 @@ Inductive outcome :=
 | ODisconnect        (* the IO layer was asked to disconnect the sender *)
 | OPanic (site : string).
 
-(* ---------------------------------------------------------------- panic sites (names of coq/gen/PanicSites.v) *)
-
-Definition site_block_tag := "routing_thread::RoutingThread::process_incoming_message#2-unreachable".
-Definition site_keylist := "routing_thread::RoutingThread::process_incoming_message#1-unwrap".
-Definition site_keylist_debug := "io::network::Network::handle_received_key_list#1-unwrap@debug".
-Definition site_ghost_key := "routing_thread::RoutingThread::process_ghost_chain_request#2-unwrap".
-(* `(last_shared_ancestor + 1)..=latest_block_id` in generate_ghost_chain: arithmetic, not part of the inventory *)
-Definition site_ghost_overflow := "routing_thread::RoutingThread::generate_ghost_chain#arith-add-overflow".
-
-Definition model_sites : list string :=
-  [site_block_tag; site_keylist; site_keylist_debug; site_ghost_key].
+(* ---------------------------------------------------------------- panic sites
+   none: since the repairs 6f9c6f9, d1384db, 3bd37ad, d479d43 (and ae2aeaa, eeb4ec7 before) no arm of the dispatch panics *)
+Definition model_sites : list string := [].
 
 (* ---------------------------------------------------------------- handlers *)
 
@@ -167,7 +159,9 @@ Definition dispatch (st : state) (now idx : N) (p : peer) (m : msg) : state * ou
                        else (put st idx (mark_disconnected now p2), ODisconnect)
            | None => (put st idx (set_challenge false (set_key (Some key) p2)), OOk)
            end
-  | MBlock => (put st idx p, OPanic site_block_tag)
+  | MBlock =>
+      (* since fix 6f9c6f9: logged and dropped (before: unreachable!(), finding block-tag-unreachable) *)
+      (put st idx p, OOk)
   | MTx ty len verified =>
       (* routing: to the verification thread; consensus: golden tickets go to Mempool::add_golden_ticket.
          Since fix eeb4ec7 a GoldenTicket-typed transaction whose payload is not 97 bytes does not decode
@@ -176,23 +170,17 @@ Definition dispatch (st : state) (now idx : N) (p : peer) (m : msg) : state * ou
   | MChainReq | MHeaderHash | MPing | MSpv | MServices _ | MGhostChain | MApp | MResult | MError =>
       (put st idx p, OOk)
   | MGhostReq anc0_max =>
-      match p_key p with
-      | None => (put st idx p, OPanic site_ghost_key)
-      | Some _ => if anc0_max && overflow_checks st
-                  then (put st idx p, OPanic site_ghost_overflow)
-                  else (put st idx p, OOk)
-      end
+      (* since fixes d1384db / 3bd37ad: a request from an entry without key is dropped, the id increment saturates
+         (before: unwrap on None, finding ghost-request-no-key; add overflow, ghost-request-id-max-overflow) *)
+      (put st idx p, OOk)
   | MKeyList n =>
       (* Network::handle_received_key_list, result unwrapped by the routing thread *)
       let p1 := set_kl (lim_increase (p_kl p)) p in
       let (k, ex) := lim_check (p_kl p1) now in
       let p2 := set_kl k p1 in
-      if ex then
-        match p_key p2 with
-        | None => if debug_log st then (put st idx p2, OPanic site_keylist_debug)
-                  else (put st idx p2, OPanic site_keylist)
-        | Some _ => (put st idx p2, OPanic site_keylist)
-        end
+      (* since fix d479d43: a key list beyond the quota is logged and dropped (before: the Err was unwrapped,
+         finding key-list-limit-unwrap) *)
+      if ex then (put st idx p2, OOk)
       else (put st idx (set_keylist n p2), OOk)
   end.
 
@@ -290,16 +278,7 @@ Fixpoint run (st : state) (l : list input) : result :=
 (* ---------------------------------------------------------------- the listed crash inputs, as conditions on
    the input and on the sender's entry (not on what the handler does) *)
 
-Definition known_msg (st : state) (now : N) (p : peer) (m : msg) : bool :=
-  match m with
-  | MBlock => true                                                    (* block-tag-unreachable *)
-  | MGhostReq a => match p_key p with
-                   | None => true                                     (* ghost-request-no-key *)
-                   | Some _ => a && overflow_checks st                (* ghost-request-id-max-overflow *)
-                   end
-  | MKeyList _ => snd (lim_check (lim_increase (p_kl p)) now)         (* key-list-limit-unwrap: the list that exceeds the quota *)
-  | _ => false
-  end.
+Definition known_msg (st : state) (now : N) (p : peer) (m : msg) : bool := false.
 
 Definition known_input (st : state) (i : input) : bool :=
   match i with
